@@ -9,10 +9,10 @@ import (
 
 // Violation is a failure of the property's own oracle on the implementation.
 type Violation struct {
-	Kind   string `json:"kind"`             // short class, used for known-finding matching
-	Detail string `json:"detail"`           // human-readable
-	Replay any    `json:"replay,omitempty"` // the input/history that fails
-	Sig    map[string]any `json:"sig,omitempty"` // decidable facts about the (shrunk) failing input, for known-finding attribution
+	Kind   string         `json:"kind"`             // short class, used for known-finding matching
+	Detail string         `json:"detail"`           // human-readable
+	Replay any            `json:"replay,omitempty"` // the input/history that fails
+	Sig    map[string]any `json:"sig,omitempty"`    // decidable facts about the (shrunk) failing input, for known-finding attribution
 }
 
 // Result is what every engine writes to <out>/result.json.
@@ -26,6 +26,7 @@ type Result struct {
 	Dist        map[string]int `json:"distribution"`
 	CaseFiles   []string       `json:"case_files"`
 	CaseIndex   []any          `json:"case_index,omitempty"` // per-case replay info, same order as cases
+	CaseShard   int            `json:"case_shard,omitempty"` // cases per file (file k holds cases k*shard ...)
 	Violations  []Violation    `json:"violations"`
 	Notes       []string       `json:"notes,omitempty"`
 }
